@@ -21,6 +21,7 @@ package mqttproxy
 
 import (
 	"bytes"
+	"encoding/base64"
 	"encoding/json"
 	"errors"
 	"fmt"
@@ -408,6 +409,22 @@ func (r *vfMqRig) Publish(topic string, qos int, payload string) int {
 	w := httptest.NewRecorder()
 	r.broker.httpTopicsPublishHandler(w, req)
 	return w.Code
+}
+
+// PublishBytes injects a message with an arbitrary (binary) payload through the HTTP publish
+// endpoint, the way the endpoint documents it: "base64": true and the payload in standard base64.
+func (r *vfMqRig) PublishBytes(topic string, qos int, payload []byte) int {
+	body, _ := json.Marshal(HTTPJsonData{Topic: topic, QoS: qos, Payload: base64.StdEncoding.EncodeToString(payload), Base64: true})
+	req := httptest.NewRequest(http.MethodPost, "/mqttproxy/vfmq/topics/publish", bytes.NewReader(body))
+	w := httptest.NewRecorder()
+	r.broker.httpTopicsPublishHandler(w, req)
+	return w.Code
+}
+
+// DeleteSessionRecord removes the stored record of a client id directly in the store, as the
+// session delete of another cluster member would; the broker hears about it through its watcher.
+func (r *vfMqRig) DeleteSessionRecord(cid string) {
+	r.store.delete(sessionStoreKey(cid))
 }
 
 // FanoutBarrier returns when every fan-out goroutine started by earlier Publish calls has ended,
